@@ -143,6 +143,11 @@ P("cfg_btn_press_count", CFG_BTN_PRESS_COUNT);
     g = run_probe("p_wd", 'P("wd_timeout", WATCHDOG_TIMEOUT_SEC); P("wd_soft", WATCHDOG_SOFT_TIMEOUT_SEC);',
                   includes_c=["supla_esp.h"])
     g.update({"ka_reconnect": m1.group(1), "ka_window": m2[0]})
+    cd = open(os.path.join(C.REPO, "src/user/supla_esp_countdown_timer.c")).read()
+    mm = re.search(r"time_left_ms / (\d+);\s*if \(dms < (\d+)\) \{\s*dms = (\d+);\s*\} else if \(dms > (\d+)\) \{\s*dms = (\d+);", cd)
+    if not mm or mm.group(2) != mm.group(3) or mm.group(4) != mm.group(5):
+        raise ExtractError("countdown startstop: period rule not recognised")
+    a.update({"cd_div": mm.group(1), "cd_min": mm.group(2), "cd_max": mm.group(4)})
     a.update(b)
     a.update(c)
     a.update(d)
@@ -161,6 +166,7 @@ def emit_consts():
         "import SuplaVerif.Model.RsRelay",
         "import SuplaVerif.Model.CalCfg",
         "import SuplaVerif.Model.KeepAlive",
+        "import SuplaVerif.Model.Countdown",
         "namespace SuplaVerif.Gen",
         "",
         "def protoParams : ProtoParams :=",
@@ -209,6 +215,7 @@ def emit_consts():
         "def kaConsts : KaConsts :=",
         "  { pingWindow := %s, reconnectAdd := %s, wdTimeout := %s, wdSoft := %s }" % (
             k["ka_window"], k["ka_reconnect"], k["wd_timeout"], k["wd_soft"]),
+        "def cdParams : CdParams := { minP := %s, maxP := %s, div := %s }" % (k["cd_min"], k["cd_max"], k["cd_div"]),
         "def dnsTimeoutMs : Nat := %s" % k["dns_timeout"],
         "def dnsRetryMs : Nat := %s" % k["dns_retry"],
         "/-- field offsets / literals of the reply parser the model hard-codes -/",
